@@ -222,6 +222,14 @@ const TEMPLATES: &[&str] = &[
     ";",
     "void main()",
     "void main() {",
+    // constant calculator (global initialisers, array sizes, aligned(), asm sizes): divisions whose
+    // quotient or operands leave 32 bits
+    "const char k = (-2147483647 - 1) / @;\nvoid main() {}\n",
+    "const char k = (0 - @ - 1) / (0 - 1);\nvoid main() {}\n",
+    "unsigned char t[(@ - 1) / -1];\nunsigned char u[@ / -1];\nvoid main() {}\n",
+    "const char t[2] = {1, ~@ / -1};\nconst char u[2] = {(@ * -1) / -1, (@ << 1) / -1};\nvoid main() {}\n",
+    "aligned(@ / -1) const char t[2] = {1, 2};\nvoid main() { asm(\"NOP\", (@ - 1) / -1); }\n",
+    "unsigned char t[4];\nconst char *p = t + @ / -1;\nconst char k = -@ - 1 / -1;\nvoid main() {}\n",
 ];
 
 fn nesting(kind: u64, depth: usize) -> String {
@@ -407,6 +415,11 @@ pub fn c16_pins() -> Vec<C16Pin> {
         C16Pin { name: "directive_error_after_include", src: || { let d = "/verif/work/c16inc"; let _ = std::fs::create_dir_all(d); let _ = std::fs::write(format!("{}/defs1.h", d), "unsigned char hv;\n"); "unsigned char a;\n#include \"defs1.h\"\n\n\n\n#if VERBOSE\nunsigned char b;\n#endif\nvoid main() {}\n".into() }, argv_extra: &["-I", "/verif/work/c16inc"] },
         C16Pin { name: "switch_without_case_bodies", src: || "unsigned char a, r;\nvoid main() { switch (a) { } switch (a) { case 1: case 2: } r = 1; }\n".into(), argv_extra: &[] },
         C16Pin { name: "int_min_divided_by_minus_one", src: || "#define INT_MIN (-2147483647 - 1)\n#define SCALE -1\nunsigned char r;\nvoid main() { r = (-2147483647 - 1) / -1; r = (INT_MIN / SCALE) >> 24; r = ~0x7fffffff / -1; }\n".into(), argv_extra: &[] },
+        C16Pin { name: "calc_int_min_divided_by_minus_one_initialiser", src: || "const char c = (0 - 2147483647 - 1) / (0 - 1);\nvoid main() {}\n".into(), argv_extra: &[] },
+        C16Pin { name: "calc_int_min_divided_by_minus_one_prefix", src: || "const char c = (-2147483647 - 1) / -1;\nvoid main() {}\n".into(), argv_extra: &[] },
+        C16Pin { name: "calc_int_min_divided_by_minus_one_array_size", src: || "unsigned char t[(-2147483647 - 1) / -1];\nvoid main() {}\n".into(), argv_extra: &[] },
+        C16Pin { name: "calc_int_min_divided_by_minus_one_array_item", src: || "const char t[2] = {1, ~0x7fffffff / -1};\nvoid main() {}\n".into(), argv_extra: &[] },
+        C16Pin { name: "calc_int_min_divided_by_minus_one_asm_size", src: || "void main() { asm(\"NOP\", (-2147483647 - 1) / -1); }\n".into(), argv_extra: &[] },
         // recorded finding
         C16Pin { name: "deep_blocks_5000", src: || nesting(1, 5000), argv_extra: &[] },
     ]
